@@ -639,7 +639,7 @@ fn c05(cx: &mut Ctx<'_, '_>) {
             v.push(("too-many-attempts".into(), format!("{} attempts with budget {n:?}", atts.len())));
         }
         // delay: lower bound between the last callback of k and the first of k+1
-        if let Some((_, Some(ms))) = info.retry {
+        if let Some((_, Some(us))) = info.retry {
             for w in atts.windows(2) {
                 let (Some(g0), Some(g1)) = (w[0].group, w[1].group) else { continue };
                 if an.groups[g0].sc_uid.is_none() || an.groups[g1].sc_uid.is_none() {
@@ -650,8 +650,8 @@ fn c05(cx: &mut Ctx<'_, '_>) {
                 if let (Some(a), Some(b)) = (last_exit, first_enter) {
                     let gap = b.saturating_duration_since(a);
                     cx.t.count("c05.delays_measured", 1);
-                    if gap.as_micros() < u128::from(ms) * 1000 {
-                        v.push(("delay".into(), format!("retry began {:?} after the failed attempt's last callback, configured delay {ms}ms", gap)));
+                    if gap.as_micros() < u128::from(us) {
+                        v.push(("delay".into(), format!("retry began {:?} after the failed attempt's last callback, configured delay {us}us", gap)));
                     }
                 }
             }
@@ -660,14 +660,14 @@ fn c05(cx: &mut Ctx<'_, '_>) {
         // earlier than the delay after the failed attempt's Finished (the delay runs from the END of
         // the attempt, which a lingering scenario span may postpone)
         #[cfg(feature = "writers")]
-        if let Some((_, Some(ms))) = info.retry {
+        if let Some((_, Some(us))) = info.retry {
             for w in atts.windows(2) {
                 let (Some(fi), Some(st)) = (w[0].finished, w[1].started) else { continue };
                 let (t0, t1) = (an.ev(fi).at, an.ev(st).at);
                 if let Ok(gap) = t1.duration_since(t0) {
                     cx.t.count("c05.delays_measured_on_event_timestamps", 1);
-                    if gap.as_micros() + 100 < u128::from(ms) * 1000 {
-                        v.push(("delay-since-finished".into(), format!("the retry's Started is stamped {gap:?} after the failed attempt's Finished, configured delay {ms}ms")));
+                    if gap.as_micros() + 100 < u128::from(us) {
+                        v.push(("delay-since-finished".into(), format!("the retry's Started is stamped {gap:?} after the failed attempt's Finished, configured delay {us}us")));
                     }
                 }
             }
@@ -876,13 +876,13 @@ fn c06(cx: &mut Ctx<'_, '_>) {
                         if !info.serial {
                             continue;
                         }
-                        let ms = info.retry.and_then(|x| x.1);
+                        let us = info.retry.and_then(|x| x.1);
                         // the deadline was taken after the Finished event was sent, hence after
                         // the quiescent point that precedes its receipt
                         let rq = out.evs[*fin_ev].q;
                         let base = if rq == 0 { None } else { t_of_q(rq - 1) };
-                        match (delayed, ms, base) {
-                            (true, Some(ms), Some(base)) if q.t < base + std::time::Duration::from_millis(ms) => {
+                        match (delayed, us, base) {
+                            (true, Some(us), Some(base)) if q.t < base + std::time::Duration::from_micros(us) => {
                                 serial_waiting_for_delay = true;
                             }
                             _ => maybe_ready = true,
@@ -1499,13 +1499,13 @@ fn c18(cx: &mut Ctx<'_, '_>) {
             );
         }
         let c = &an.case.cfg;
-        let sources = [c.cli_retry.is_some(), c.b_retry.is_some(), c.cli_retry_after_ms.is_some(), c.b_retry_after_ms.is_some(), c.cli_filter.is_some(), c.b_filter.is_some()]
+        let sources = [c.cli_retry.is_some(), c.b_retry.is_some(), c.cli_retry_after_us.is_some(), c.b_retry_after_us.is_some(), c.cli_filter.is_some(), c.b_filter.is_some()]
             .iter()
             .filter(|x| **x)
             .count();
         let tagged = info.s.tags.iter().chain(info.r.iter().flat_map(|r| &r.tags)).chain(&info.f.tags).any(|t| t.starts_with("retry"));
         if sources + usize::from(tagged) >= 2 {
-            cx.t.nontrivial("C18", fnv(&format!("{:?}|{tagged}|{:?}|{:?}|{:?}|{:?}|{}{}", info.retry, c.cli_retry, c.b_retry, c.cli_retry_after_ms, c.b_retry_after_ms, c.cli_filter.is_some(), c.b_filter.is_some())));
+            cx.t.nontrivial("C18", fnv(&format!("{:?}|{tagged}|{:?}|{:?}|{:?}|{:?}|{}{}", info.retry, c.cli_retry, c.b_retry, c.cli_retry_after_us, c.b_retry_after_us, c.cli_filter.is_some(), c.b_filter.is_some())));
         }
     }
 }
